@@ -5257,8 +5257,16 @@ class FlowIRConcrete(object):
 
         platform_environments = self.get_environments(platform)
 
+        # VV: An environment that both the default platform and @platform define is the environment of the default
+        #     platform with the keys of @platform layered on top of it (exactly what get_environment() and
+        #     environments() return). Storing just the keys of @platform would drop the keys which only the default
+        #     platform defines from the experiment and from every instance that is loaded back from its files.
         environments = default_environments
-        environments.update(platform_environments)
+        for env_name in platform_environments:
+            if isinstance(environments.get(env_name), dict) and isinstance(platform_environments[env_name], dict):
+                environments[env_name].update(platform_environments[env_name])
+            else:
+                environments[env_name] = platform_environments[env_name]
 
         global_variables = FlowIR.fill_in(
             global_variables, context=global_variables, flowir=self._flowir, ignore_errors=True,
